@@ -32,7 +32,8 @@ META = {
         'Task definitions are enumerated (every graph-declarable optionality '
         'pattern of the six standard outputs x up to three custom outputs '
         'each unmarked/required/optional; thorough: the whole box, quick: '
-        'all of it up to two custom outputs plus a sample of the rest), '
+        'all of it up to one custom output plus a seeded sample of the '
+        'rest), '
         'plus random user completion expressions and definitions produced '
         'by the real WorkflowConfig from generated flow.cylc files '
         '(including awkward but legal output names). For each, every subset '
@@ -67,7 +68,7 @@ ASSUMPTIONS = [
 ]
 MIN = {
     'quick': {
-        'is_complete_evals': 300000, 'defs_default_direct': 2340,
+        'is_complete_evals': 300000, 'defs_default_direct': 1400,
         'defs_user_expr': 300, 'defs_via_config': 120,
         'verdict_complete': 50000, 'verdict_incomplete': 50000,
         'defs_succ_opt': 300, 'defs_sub_opt': 300, 'defs_exp_opt': 300,
@@ -84,7 +85,7 @@ MIN = {
     },
 }
 NCASES = {'quick': 96, 'thorough': 768}
-QUICK_K3_FRACTION = 0.1
+QUICK_FRACTION = {0: 1.0, 1: 1.0, 2: 0.4, 3: 0.06}
 USER_PER_CASE = {'quick': 6, 'thorough': 8}
 CONFIG_PER_CASE = {'quick': 3, 'thorough': 4}
 
@@ -419,8 +420,7 @@ def run_case(ctx, i, rng):
     n = ncases(ctx.tier)
     for idx in range(i, len(_BOX), n):
         k = len(_BOX[idx][1])
-        if ctx.tier == 'quick' and k == 3 and (
-                rng.random() >= QUICK_K3_FRACTION):
+        if ctx.tier == 'quick' and rng.random() >= QUICK_FRACTION[k]:
             continue
         box_def(ctx, idx, rng)
     for _ in range(USER_PER_CASE[ctx.tier]):
